@@ -12,6 +12,7 @@ EXPLANATION = (
     "the initial partition is {dead} + the non-empty ones of {accepting, live non-accepting}, all disjoint by construction), GROUPS (only non-empty blocks are interned: min()/max() are safe), "
     "MPT (minimize is applied to the main automaton before emission and to every within-word automaton before interning). "
     "NOT decided: that the refinement loop computes the coarsest partition; find_bounds' window; minimality in general."
+    " NOIDRET also covers DFA::minimize itself (no early return of `self`: a cheaper `already minimal` test is right only if it is state equivalence)."
 )
 ASSUMPTIONS = ["rustc accepts the tree", "RoaringBitmap set algebra (difference/intersection) is correct"]
 
